@@ -17,7 +17,7 @@ for pid in ids:
         c=claimed[pid]
         m["checks"].append({"property_id":pid,"quick_cmd":"./check %s --tier quick"%pid,"thorough_cmd":"./check %s --tier thorough"%pid,
           "evidence_file":"/verif/evidence/%s.json"%pid,"engine":"vcgo",
-          "level_claimed":{"category":"proof","text":c["text"],"design_ref":c.get("design_ref","DESIGN.md §6 "+pid)},
+          "level_claimed":{"category":c.get("category","proof"),"text":c["text"],"design_ref":c.get("design_ref","DESIGN.md §6 "+pid)},
           "level_note":c["note"],"technique":c.get("technique","contract-based deductive verification: requires/ensures/loop invariants on the real Go functions, VCs generated from go/ssa, discharged by SMT (z3/cvc5)")})
     else:
         na=json.load(open('/verif/tools/not_applicable.json'))
